@@ -59,6 +59,9 @@ namespace pika::when_all_impl {
         void set_error(Error&& error) && noexcept
         {
             auto r = std::move(*this);
+#if defined(PIKA_VERIF)
+            PIKA_VERIF_POINT(331, &r.op_state);
+#endif
             if (!r.op_state.set_stopped_error_called.exchange(true))
             {
                 try
@@ -78,6 +81,9 @@ namespace pika::when_all_impl {
         void set_stopped() && noexcept
         {
             auto r = std::move(*this);
+#if defined(PIKA_VERIF)
+            PIKA_VERIF_POINT(331, &r.op_state);
+#endif
             r.op_state.set_stopped_error_called = true;
             r.op_state.finish();
         };
@@ -106,6 +112,9 @@ namespace pika::when_all_impl {
             -> decltype(set_value_helper(index_pack_type{}, std::forward<Ts>(ts)...), void())
         {
             auto r = std::move(*this);
+#if defined(PIKA_VERIF)
+            PIKA_VERIF_POINT(331, &r.op_state);
+#endif
             if constexpr (OperationState::sender_pack_size > 0)
             {
                 if (!r.op_state.set_stopped_error_called)
@@ -261,6 +270,9 @@ namespace pika::when_all_impl {
 
             void finish() noexcept
             {
+#if defined(PIKA_VERIF)
+                PIKA_VERIF_POINT(332, this);
+#endif
                 if (--predecessors_remaining == 0)
                 {
                     if (!set_stopped_error_called) { set_value_helper(ts); }
